@@ -31,6 +31,8 @@ def scope(tier, seed):
                  + ('' if tier == 'quick' else ' and all 908 with 3 nodes'),
             'D': 'label names colliding with the fresh atoms / fair labels, nested-quantifier shapes',
             'N': 'A/E over the 3-ary and/or path family on the 82 representatives',
+            'NEG': 'A/E over %d negation-rich path formulas on the 82 representatives' % len(spaces.negated_path()),
+            'EDIT': 'query / edit the same object / query histories on the 82 representatives',
             'S': 'selected formulas with 4-5 nodes (3 temporal operators per quantifier, nesting 2)'}
 
 
@@ -51,6 +53,10 @@ def plan(tier, seed):
         sh.append(['N', lo, hi])
     for lo, hi in chunks(82, 4):
         sh.append(['S', lo, hi])
+    for lo, hi in chunks(82, 2):
+        sh.append(['NEG', lo, hi])
+    for lo, hi in chunks(82, 2):
+        sh.append(['EDIT', lo, hi])
     return sh
 
 
@@ -184,6 +190,41 @@ def run_shard(shard, tier, seed, acc):
                     return
                 check_one(k, Kl, f, acc, audit=(j % 8 == 0))
         return
+    if kind == 'NEG':
+        forms = [(q, g) for g in spaces.negated_path() for q in 'AE']
+        for k in (spaces.kripke_reps(1) + spaces.kripke_reps(2))[shard[1]:shard[2]]:
+            Kl = lib.to_kripke(k)
+            for j, f in enumerate(forms):
+                if j % 64 == 0 and deadline_passed():
+                    acc.capped()
+                    return
+                check_one(k, Kl, f, acc, audit=(j % 8 == 0))
+        return
+    if kind == 'EDIT':
+        reps = (spaces.kripke_reps(1) + spaces.kripke_reps(2))[shard[1]:shard[2]]
+        P_, Q_ = spaces.P, spaces.Q
+        forms = [f for f in spaces.ctls_state_by_size(2, spaces.LEAVES2) if has_quant(f)][::3] + \
+                [('A', ('F', ('G', P_))), ('E', ('G', ('F', Q_))), ('A', ('G', ('imp', P_, ('A', ('F', Q_))))),
+                 ('E', ('X', ('A', ('G', P_)))), ('and', ('E', ('G', P_)), ('E', ('F', Q_)))]
+        for k in reps:
+            for edit, k2 in spaces.k_edits(k):
+                Kl = lib.to_kripke(k)
+                for f in forms:
+                    check_one(k, Kl, f, acc)
+                r = call(spaces.apply_edit, Kl, edit)
+                if r[0] != 'ok':
+                    acc.harness_error('edit %r failed: %r' % (edit, r[1:]))
+                    continue
+                acc.add('edit_histories')
+                sem2 = Sem(k2)
+                for f in forms:
+                    ref = sem2.sat(f)
+                    res = as_state_set(call(lib.CTLS.modelcheck, Kl, lib.build(f, lib.CTLS)))
+                    acc.ev(1, 1 if 0 < len(ref) < k.n else 0)
+                    if res != ('set', sorted(ref)):
+                        acc.violation('wrong-answer-after-edit', kcase(k, f, edit=list(edit)), sorted(ref), res)
+                        break
+        return
     if kind == 'S':
         forms = special_forms()
         for k in (spaces.kripke_reps(1) + spaces.kripke_reps(2))[shard[1]:shard[2]]:
@@ -209,6 +250,14 @@ def replay(art):
                 call(lib.CTLS.modelcheck, Kl, lib.build(f, lib.CTLS))
         return {'violates': lib.snapshot_kripke(Kl) != snap}
     f = spaces.from_jsonable(case['f'])
+    if art['kind'] == 'wrong-answer-after-edit':
+        edit = tuple(case['edit'])
+        k2 = [x for e, x in spaces.k_edits(k) if list(e) == list(edit)][0]
+        call(lib.CTLS.modelcheck, Kl, lib.build(f, lib.CTLS))
+        spaces.apply_edit(Kl, edit)
+        ref = sorted(Sem(k2).sat(f))
+        res = as_state_set(call(lib.CTLS.modelcheck, Kl, lib.build(f, lib.CTLS)))
+        return {'violates': res != ('set', ref), 'expected': ref, 'got': res}
     ref = sorted(Sem(k).sat(f))
     res = as_state_set(call(lib.CTLS.modelcheck, Kl, lib.build(f, lib.CTLS)))
     res2 = as_state_set(call(lib.CTLS.modelcheck, Kl, lib.build(f, lib.CTLS)))
